@@ -262,9 +262,10 @@ def reinterp_requests(ctx: Ctx, probe, only=None):
     decoding) through every entry point, over a tree where the literal name exists inside the root ("L") and over
     one where it does not ("N"); sentinels outside the root exist in both.  Keys Reinterp...  HOME and PWD point
     at the package directory meanwhile, so that an expanding helper would reach a sentinel."""
-    raws_n = ps.reinterp_raws(probe, deep=not ctx.quick)
-    lit, raws_l = ps.literal_tree(os.path.join(ctx.tmp, "e2e-literal"), deep=not ctx.quick)
-    apis = list(ps.APIS) + (["sfd_pathlike", "sfd_cwd", "sdm_nocache", "sdm_pkg_all"] if not ctx.quick else ["sfd_cwd"])
+    deep = not ctx.quick or only is not None          # a replayed case may stem from the thorough tier
+    raws_n = ps.reinterp_raws(probe, deep=deep)
+    lit, raws_l = ps.literal_tree(os.path.join(ctx.tmp, "e2e-literal"), deep=deep)
+    apis = list(ps.APIS) + (["sfd_pathlike", "sfd_cwd", "sdm_nocache", "sdm_pkg_all"] if not ctx.quick else [])
     stats = {}
     saved = {k: os.environ.get(k) for k in ("HOME", "PWD")}
     try:
@@ -289,12 +290,14 @@ def reinterp_requests(ctx: Ctx, probe, only=None):
         stats["literal_files_inside_root"] = n_lit
         stats["literal_names_not_creatable"] = len(lit.not_created)
         stats["spellings"] = len(raws_n)
-        if n_lit < 50 or stats["L"]["200"] <= stats["N"]["200"]:
+        if n_lit < 50 or stats["L"]["200"] < 5 * stats["N"]["200"]:
             raise MachineryError(f"reinterpretation driver is vacuous (literal files are not served): {stats}")
         # the same texts handed directly to safe_join (no server in between), once and twice decoded
         texts = sorted({t for r in raws_n for t in (r, ps.unquote_to_bytes(r).decode("utf-8", "replace"),
                                                   ps.unquote_to_bytes(ps.unquote_to_bytes(r)).decode("utf-8", "replace"))})
-        cases = [[b, [t]] for b in ps.BASES[:4] for t in texts] + [[b, ["sub", t]] for b in ps.BASES[:2] for t in texts]
+        cases = [[b, [t]] for b in ps.BASES[:2 if ctx.quick else 4] for t in texts]
+        if not ctx.quick:
+            cases += [[b, ["sub", t]] for b in ps.BASES[:2] for t in texts]
         stats["safe_join_direct"] = judge_joins(ctx, cases, kind="join", prefix="Reinterp")
     return stats
 
